@@ -583,7 +583,7 @@ const SEEDS: &[&str] = &[
     "((m/cm)^1e30)^1e30", "fn f(x) = x^(2^126) * x^(2^126)", "assert_eq(1 km, 1 m, 0 km)", "assert_eq(1 km, 1 m, 0 m)", "assert_eq(1, 2, 0)",
     "(if m == m then sqr else sqr)(2)", "(if cm == cm then sqr else sqr)(2)", "(if 1 m == 1 m then sin else cos)(2)", "(sqr)(2 m)",
     "unit zu = \"\"", "unit zu = [1]", "unit zu = true", "unit zu = sin", "!0^2", "!NaN^2", "sin(inf m)", "inf m -> sin", "exp(NaN s)",
-    "1/0", "0/0", "inf - inf", "NaN == NaN", "0^0", "0^-1", "(-8)^(1/3)", "1e308 * 10", "-1e308 * 10", "2^1024", "2^-1075", "(1e308 m)^2", "(1e-308 m)^2",
+    "1/0", "1 ÷ 0", "1 m ÷ 0 µm", "0/0", "inf - inf", "NaN == NaN", "0^0", "0^-1", "(-8)^(1/3)", "1e308 * 10", "-1e308 * 10", "2^1024", "2^-1075", "(1e308 m)^2", "(1e-308 m)^2",
     "1 m -> 0", "1 m -> inf", "1 m -> NaN m", "1 -> 1", "1 m -> 0 m", "mod(1, 0)", "mod(1 m, 0 m)", "gamma(-1)", "gamma(171.7)", "sqrt(-1)", "ln(0)", "ln(-1)", "asin(2)",
     "round_in(0 m, 1 m)", "floor_in(0 cm, 1 m)", "1 m |> round_in(0 cm)", "trunc_in(inf m, 1 m)", "unit_of(0)", "value_of(inf m)", "head([])", "tail([])", "[] ++ []", "element_at(5, [1])", "element_at(-1, [1])",
     "range(1, 0)", "range(0, 1e3) |> len", "sum([])", "mean([])", "maximum([])", "str_slice(5, 2, \"ab\")", "str_slice(0, 100, \"ab\")", "str_slice(1, 2, \"äöü\")", "chr(55296)", "chr(1114112)", "chr(-1)", "chr(0.5)", "ord(\"\")",
